@@ -314,7 +314,8 @@ def fold(pid, prop, tier, seed, recs, infra, t0):
         else:
             new_violations.append(r)
 
-    os.makedirs(os.path.join(ROOT, "replays"), exist_ok=True)
+    replay_dir = os.environ.get("VERIF_REPLAY_DIR") or os.path.join(ROOT, "replays")
+    os.makedirs(replay_dir, exist_ok=True)
     lines = []
     seen_cls = {}
     for r in new_violations:
@@ -325,6 +326,8 @@ def fold(pid, prop, tier, seed, recs, infra, t0):
         sha = hashlib.sha1((r.get("case") or r["h"]).encode()).hexdigest()[:8]
         safe = "".join(ch if ch.isalnum() or ch in "-_." else "_" for ch in cls)[:60]
         path = os.path.join("replays", f"{pid}-{safe}-{sha}.json")
+        if os.environ.get("VERIF_REPLAY_DIR"):
+            path = os.path.join(replay_dir, f"{pid}-{safe}-{sha}.json")
         with open(os.path.join(ROOT, path), "w") as fh:
             json.dump({"property": pid, "stratum": r["s"], "index": r["i"], "seed": seed, "tier": tier,
                        "class": cls, "violations": r["o"]["violations"], "events": r["o"]["events"],
@@ -375,8 +378,9 @@ def fold(pid, prop, tier, seed, recs, infra, t0):
         "wall_s": round(wall, 2),
         "violations": len(new_violations),
     }
-    os.makedirs(os.path.join(ROOT, "evidence"), exist_ok=True)
-    with open(os.path.join(ROOT, "evidence", f"{pid}.json"), "w") as fh:
+    ev_dir = os.environ.get("VERIF_EVIDENCE_DIR") or os.path.join(ROOT, "evidence")
+    os.makedirs(ev_dir, exist_ok=True)
+    with open(os.path.join(ev_dir, f"{pid}.json"), "w") as fh:
         json.dump(evidence, fh, indent=1, default=str)
 
     print(f"{pid} tier={tier} seed={seed}: {evaluations} cases ({len(hashes_nt)} distinct non-trivial), "
